@@ -5,6 +5,12 @@
    model [*_orig] of the code AS FOUND, before both repairs (for the refutation theorems).
    Definitions only, no proofs.
 
+   The cursor and clamping arithmetic is NOT written here: it is Generated/GenMemIO.v, re-translated on
+   every run from the text of machine_controller.py by tools/dump_c13.py (gen_address, gen_len,
+   gen_init_end, gen_seek, gen_read_plan, gen_write_plan, gen_slice_start, gen_slice_stop, gen_filelike_end), which also
+   checks literally the statements around it (transfer, THEN advance the offset; guards; close/__exit__;
+   MemoryIO.__init__/free/_perform_read/_perform_write).  The model of the code as found (the definitions named ..._orig) is hand-written.
+
    A view is (start address, end address, offset, closed).  All views of one allocation share the
    owner's [freed] flag (the root MemoryIO is its own parent; every slice keeps a reference to the
    root as `_parent`).  The machine controller is a byte memory (address -> byte); every method
@@ -17,22 +23,22 @@
    [OtherError] = a view index
    that does not exist (outside the domain of the model; never produced by the harness). *)
 From Coq Require Import ZArith List Bool.
-Require Import Rig.Model.Base.
+Require Import Rig.Model.Base Rig.Generated.GenMemIO.
 Import ListNotations.
 Open Scope Z_scope.
 
 Record view := mkView { v_start : Z; v_end : Z; v_off : Z; v_closed : bool }.
 
 (* SlicedMemoryIO.__init__: end address clipped to max(start, end), offset 0, open *)
-Definition new_view (s e : Z) : view := mkView s (Z.max s e) 0 false.
+Definition new_view (s e : Z) : view := mkView s (gen_init_end s e) 0 false.
 
 Definition set_off (v : view) (o : Z) : view := mkView (v_start v) (v_end v) o (v_closed v).
 Definition set_closed (v : view) : view := mkView (v_start v) (v_end v) (v_off v) true.
 
 (* the `address` property *)
-Definition address (v : view) : Z := v_off v + v_start v.
+Definition address (v : view) : Z := gen_address (v_start v) (v_off v).
 (* __len__ *)
-Definition vlen (v : view) : Z := v_end v - v_start v.
+Definition vlen (v : view) : Z := gen_len (v_start v) (v_end v).
 
 (* calls made on the machine controller (x, y, p arguments are constants of the view: omitted) *)
 Inductive call :=
@@ -84,22 +90,14 @@ Definition py_prefix (n : Z) (bs : list Z) : list Z :=
 (* methods of a view, given that the closed/freed guard has passed                            *)
 (* ---------------------------------------------------------------------------------------- *)
 
-(* seek(n_bytes, from_what) *)
+(* seek(n_bytes, from_what): gen_seek yields (1, new offset), or (0, _) where the code raises ValueError *)
 Definition seek (v : view) (n wh : Z) : view * output :=
-  if wh =? 0 then (set_off v n, ok VNone)
-  else if wh =? 1 then (set_off v (v_off v + n), ok VNone)
-  else if wh =? 2 then (set_off v ((v_end v - v_start v) - n), ok VNone)
-  else (v, err 1).
+  let '(valid, o) := gen_seek (v_start v) (v_end v) (v_off v) n wh in
+  if valid =? 1 then (set_off v o, ok VNone) else (v, err 1).
 
-(* read(n_bytes): the number of warnings and the number of bytes finally requested of the controller *)
-Definition read_plan (v : view) (n : Z) : Z * Z :=
-  let n1 := if n <? 0 then v_end v - address v else n in
-  let w1 := if address v + n1 >? v_end v then 1 else 0 in
-  let n2 := if address v + n1 >? v_end v then v_end v - address v else n1 in
-  let neg := (v_off v <? 0) && (n2 >? 0) in
-  let w2 := if neg then 1 else 0 in
-  let n3 := if neg then 0 else n2 in
-  (w1 + w2, n3).
+(* read(n_bytes): the number of warnings and the number of bytes finally requested of the controller
+   (the statements of read() before `if n_bytes <= 0: return b''`) *)
+Definition read_plan (v : view) (n : Z) : Z * Z := gen_read_plan (v_start v) (v_end v) (v_off v) n.
 
 Definition read (m : mem) (v : view) (n : Z) : view * output :=
   let '(w, k) := read_plan v n in
@@ -107,15 +105,12 @@ Definition read (m : mem) (v : view) (n : Z) : view * output :=
   else (set_off v (v_off v + k),
         mkOut (Ok (VBytes (mem_read m (address v) k))) w [CRead (address v) k]).
 
-(* write(bytes): the number of warnings and the bytes finally handed to the controller *)
+(* write(bytes): the number of warnings and the bytes finally handed to the controller (the statements
+   of write() before `if len(bytes) == 0: return 0`): `bytes` is only ever replaced by b'' or by a
+   prefix of itself (checked by the dumper), so it is the prefix of the length gen_write_plan computes *)
 Definition write_plan (v : view) (bs : list Z) : Z * list Z :=
-  let neg := (v_off v <? 0) && (zlen bs >? 0) in
-  let w1 := if neg then 1 else 0 in
-  let b1 := if neg then [] else bs in
-  let over := address v + zlen b1 >? v_end v in
-  let w2 := if over then 1 else 0 in
-  let b2 := if over then py_prefix (Z.max 0 (v_end v - address v)) b1 else b1 in
-  (w1 + w2, b2).
+  let '(w, k) := gen_write_plan (v_start v) (v_end v) (v_off v) (zlen bs) in
+  (w, firstn (Z.to_nat k) bs).
 
 Definition write (v : view) (bs : list Z) : view * output :=
   let '(w, b) := write_plan v bs in
@@ -149,14 +144,14 @@ Definition write_orig (v : view) (bs : list Z) : view * output :=
 (* __getitem__(slice(a, b, step)): bounds of the new view, before __init__ clips the end *)
 Definition slice_start (v : view) (a : option Z) : Z :=
   match a with
-  | None => v_start v
-  | Some x => if x <? 0 then Z.max (v_start v) (v_end v + x) else Z.min (v_end v) (v_start v + x)
+  | None => gen_slice_start_none (v_start v) (v_end v)
+  | Some x => gen_slice_start (v_start v) (v_end v) x
   end.
 
 Definition slice_stop (v : view) (s : Z) (b : option Z) : Z :=
   match b with
-  | None => v_end v
-  | Some x => if x <? 0 then Z.max s (v_end v + x) else Z.min (v_end v) (v_start v + x)
+  | None => gen_slice_stop_none (v_start v) (v_end v) s
+  | Some x => gen_slice_stop (v_start v) (v_end v) s x
   end.
 
 Definition contiguous (step : option Z) : bool :=
@@ -313,6 +308,9 @@ Definition trace_orig := trace_with step_orig.
 (* MemoryIO(mc, x, y, s, e) over memory m *)
 Definition init (s e : Z) (m : mem) : state := mkState [new_view s e] false m.
 
+(* MachineController.sdram_alloc_as_filelike(size, ...): the block sdram_alloc returned, as a MemoryIO *)
+Definition alloc_as_filelike (start size : Z) (m : mem) : state := init start (gen_filelike_end start size) m.
+
 (* ---------------------------------------------------------------------------------------- *)
 (* what the correspondence harness prints                                                     *)
 (* ---------------------------------------------------------------------------------------- *)
@@ -351,4 +349,9 @@ Fixpoint observe (st : state) (ops : list op)
    per-operation observations and the window afterwards *)
 Definition observe_case (s e lo : Z) (bs : list Z) (ops : list op) :=
   let '(l, fin) := observe (init s e (mem_of_list lo bs)) ops in
+  (l, mem_read (st_mem fin) lo (zlen bs)).
+
+(* the same for the view MachineController.sdram_alloc_as_filelike(size) makes of a block at address s *)
+Definition observe_filelike (s size lo : Z) (bs : list Z) (ops : list op) :=
+  let '(l, fin) := observe (alloc_as_filelike s size (mem_of_list lo bs)) ops in
   (l, mem_read (st_mem fin) lo (zlen bs)).
